@@ -48,13 +48,18 @@ Env(cc, i, m, scale) ==
        THEN ((cc[m] * scale) \div m) * (cc[m] - cc[i]) + Env(cc, i - 1, i, scale)
        ELSE Env(cc, i - 1, m, scale)
 
+\* minimal difference of two yaws given in 0.1 mrad (62832 units per turn)
+HeadD(a, b) == LET d == (((a - b) % 62832) + 62832) % 62832 IN IF d > 31416 THEN 62832 - d ELSE d
+
 \* one ranked result: the specification advances its cumulative counts and compares the library's lists at this rank
 EntryVerdict(e) ==
   LET k == Kind(cur, e)
       c1 == LastOr0(c) + (IF k = 1 THEN 1 ELSE 0)
       f1 == LastOr0(f) + (IF k = 0 THEN 1 ELSE 0)
       w1 == LastOr0(w) + (IF k = 1 THEN e.hw3 ELSE 0)
-  IN IF e.tp # c1 THEN "tp_list"
+  IN IF e.hw3 < 0 \/ e.hw3 > 1000 THEN "heading-weight-out-of-unit-interval"
+     ELSE IF e.gl # "none" /\ Abs(e.hw3 * 31416 - (31416 - HeadD(e.ya4, e.yb4)) * 1000) > 3 * 31416 THEN "heading-weight-not-1-minus-d-over-pi"
+     ELSE IF e.tp # c1 THEN "tp_list"
      ELSE IF e.fp # f1 THEN "fp_list"
      ELSE IF Abs(e.tph3 - w1) > Len(c) + 1 THEN "tph_list"
      ELSE "ok"
